@@ -2,12 +2,13 @@
 # Runs the quick check of the broken property against every seeded change; writes seeded/RESULTS.md.
 # (applies each patch to /repo and restores it; /repo must be clean and otherwise unused meanwhile)
 cd /verif
-out=seeded/RESULTS.md
+out=${SEED_OUT:-seeded/RESULTS.md}
+glob=${SEED_GLOB:-C*-*}
 echo "# Seeded changes vs. checks (quick tier, VERIF_SEED=${VERIF_SEED:-1})" > $out
 echo >> $out
 echo "| seeded change | property | what it changes | needs | result of ./check |" >> $out
 echo "|---|---|---|---|---|" >> $out
-for d in seeded/C*-*/; do
+for d in seeded/$glob/; do
   id=$(basename $d)
   prop=$(python3 -c "import json;m=json.load(open('$d/meta.json'));print(m['property'])")
   also=$(python3 -c "import json;m=json.load(open('$d/meta.json'));print(' '.join(m.get('also_check',[])))")
